@@ -4,7 +4,7 @@ EXTENDS Config, TLC
 VARIABLE fv
 FVs == [cont : BOOLEAN, freq : {60, 120}, extracol : BOOLEAN, pvars : BOOLEAN, diffusion : {0, 5}, subgrid : BOOLEAN,
         gridsec : {"explicit", "nofile", "omitted"}, wildcard : BOOLEAN, hasref : BOOLEAN, optsec : {"present", "omitted"}, adv : {"EF", "RK4"},
-        ibm : BOOLEAN, xforce : BOOLEAN, v1files : BOOLEAN, hdr : BOOLEAN]
+        ibm : BOOLEAN, xforce : BOOLEAN, v1files : BOOLEAN, hdr : BOOLEAN, wildname : {"f_*.nc", "f_[0-9][0-9].nc"}]
 Init == fv \in FVs
 Spec == Init /\ [][UNCHANGED fv]_fv
 \* a subgrid cannot be requested when the grid section is omitted altogether (version 2 has nowhere to put it)
